@@ -55,7 +55,9 @@ static int ph_find(uint64_t a, int N)
 {
     /* lines are opened at strictly increasing addresses (checked in ph_store), so an address at or above the newest
        line can only belong to that line */
+#ifndef IR_PHANTOM_ANYORDER
     if (ph_n > 0 && a >= ph_tag[ph_n - 1]) return a + (uint64_t)N <= ph_tag[ph_n - 1] + 32 ? ph_n - 1 : -1;
+#endif
     for (int j = 0; j < PH_LINES; ++j)
         if (j < ph_n && a >= ph_tag[j] && a + (uint64_t)N <= ph_tag[j] + 32) return j;
     return -1;
@@ -76,7 +78,9 @@ static void ph_store(uint64_t a, uint64_t v, int N)
         if (N != 8) return;                       /* payload byte, dropped */
         IR_CHECK(ph_n < PH_LINES, "phantom region: more header lines than PH_LINES");
         if (ph_n >= PH_LINES) return;
+#ifndef IR_PHANTOM_ANYORDER
         IR_CHECK(ph_n == 0 || a >= ph_tag[ph_n - 1] + 32, "phantom region: header lines must be opened at increasing addresses");
+#endif
         j = ph_n++; ph_tag[j] = a;
     }
     uint64_t o = (uint64_t)j * 32 + (a - ph_tag[j]);
